@@ -1,7 +1,503 @@
-//! `gate` driver
+//! `gate` driver (C17): datagrams described abstractly (by TLC behaviours of SecGate.tla or by the
+//! seeded random generator) are built with wire.rs, protected -- where the description says so --
+//! with the REAL plugin's own encode operations, fed to the real MessageReceiver with real
+//! SecurityPlugins (GateRig) and the deliveries observed at the readers' topic caches / writer
+//! proxies and at the acknack channel are logged as ndjson for Trace_SecGate.tla.
+
 use std::collections::HashMap;
 
-pub fn main(_mode: &str, _opt: &HashMap<String, String>) -> i32 {
-    eprintln!("gate driver: not implemented");
-    2
+use rand::{rngs::StdRng, Rng, SeedableRng};
+use rustdds::verif::gate_rig::GateRig;
+use serde::{Deserialize, Serialize};
+use serde_json::{json, Value};
+
+use crate::util;
+use crate::wire::{self, NumSet, Sub};
+
+fn d_none() -> String {
+    "na".into()
+}
+
+/// inner submessage of a secure-submessage triple
+#[derive(Clone, Debug, Serialize, Deserialize)]
+pub struct WrapSpec {
+    pub kind: String,
+    pub dst: String,
+    pub wr: String,
+    #[serde(default = "d_none")]
+    pub pay: String,
+    /// topic whose endpoint keys protect the submessage
+    pub key: String,
+}
+
+/// one wire position
+#[derive(Clone, Debug, Serialize, Deserialize)]
+pub struct El {
+    /// ent | P | B | F | idst | isrc | its
+    pub t: String,
+    #[serde(default = "d_none")]
+    pub kind: String,
+    #[serde(default = "d_none")]
+    pub dst: String,
+    #[serde(default = "d_none")]
+    pub wr: String,
+    #[serde(default = "d_none")]
+    pub pay: String,
+    /// 1-based index into wraps (P/B/F)
+    #[serde(default)]
+    pub w: usize,
+    /// idst: self|other|unknown, isrc: peer|foreign
+    #[serde(default = "d_none")]
+    pub who: String,
+}
+
+#[derive(Clone, Debug, Serialize, Deserialize)]
+pub struct MsgSpec {
+    /// only in the flat form dumped by TLC (one message per line)
+    #[serde(default, skip_serializing_if = "Option::is_none")]
+    pub gov: Option<String>,
+    /// plain | srtps | srtps_bad | shift
+    pub first: String,
+    /// peer | foreign
+    pub src: String,
+    #[serde(default)]
+    pub wraps: Vec<WrapSpec>,
+    pub els: Vec<El>,
+}
+
+#[derive(Clone, Debug, Serialize, Deserialize)]
+pub struct RunSpec {
+    pub gov: String,
+    pub msgs: Vec<MsgSpec>,
+}
+
+pub const DESTS: [&str; 10] = ["NN", "EN", "NE", "EE", "SN", "NS", "spdp", "stateless", "volatile", "sedp"];
+const FOREIGN: [u8; 12] = [9; 12];
+const OTHER: [u8; 12] = [5; 12];
+
+fn ep_index(name: &str) -> Option<usize> {
+    DESTS.iter().position(|d| *d == name)
+}
+
+fn fixtures_dir() -> String {
+    std::env::var("VERIF_GATE_FIXTURES").unwrap_or_else(|_| {
+        let exe = std::env::current_exe().unwrap();
+        // <verif>/harness/target-sec/debug/vh -> <verif>/fixtures/gate
+        let p = exe.parent().unwrap().parent().unwrap().parent().unwrap().parent().unwrap().join("fixtures").join("gate");
+        p.to_string_lossy().to_string()
+    })
+}
+
+struct Exec {
+    rig: GateRig,
+    next_id: i64,
+}
+
+impl Exec {
+    fn reader_eid(&self, name: &str) -> [u8; 4] {
+        match ep_index(name) {
+            Some(i) => self.rig.eps[i].reader,
+            None => [0, 0, 0, 0],
+        }
+    }
+    fn writer_eid(&self, name: &str) -> [u8; 4] {
+        match ep_index(name) {
+            Some(i) => self.rig.eps[i].writer,
+            None => [0, 0, 0, 0],
+        }
+    }
+
+    /// plain entity submessage; returns (bytes, effective pay)
+    fn build_ent(&self, id: i64, kind: &str, dst: &str, wr: &str, pay: &str) -> (Vec<u8>, String) {
+        let mut eff_pay = "na".to_string();
+        let sub = match kind {
+            "DATA" | "FRAG" => {
+                let plain = wire::vsample_payload((id % 3) as u32, id as u32, &[id as u8; 8]);
+                let mut payload = plain.clone();
+                eff_pay = "plain".into();
+                let key_name = match pay {
+                    "enc" => Some(wr.to_string()),
+                    // encoded, but with the key of a different payload-protected topic
+                    "encx" => Some(if wr == "NE" { "EE".to_string() } else { "NE".to_string() }),
+                    _ => None,
+                };
+                if let Some(k) = key_name {
+                    if let Some(ki) = ep_index(&k) {
+                        if let Ok(enc) = self.rig.encode_payload(&plain, ki) {
+                            payload = enc;
+                            while payload.len() % 4 != 0 {
+                                payload.push(0);
+                            }
+                            eff_pay = pay.to_string();
+                        }
+                    }
+                }
+                if kind == "DATA" {
+                    Sub::Data { reader: self.reader_eid(dst), writer: self.writer_eid(wr), sn: id, inline_qos: None, payload: Some(payload), key_flag: false }
+                } else {
+                    let n = payload.len();
+                    Sub::DataFrag {
+                        reader: self.reader_eid(dst),
+                        writer: self.writer_eid(wr),
+                        sn: id,
+                        frag_start: 1,
+                        frags_in_sub: 1,
+                        frag_size: n as u16,
+                        sample_size: n as u32,
+                        inline_qos: None,
+                        payload,
+                        key_flag: false,
+                    }
+                }
+            }
+            "HB" => Sub::Heartbeat { reader: self.reader_eid(dst), writer: self.writer_eid(wr), first: 1, last: 0, count: id as i32, final_flag: true, liveliness: false },
+            "GAP" => Sub::Gap { reader: self.reader_eid(dst), writer: self.writer_eid(wr), start: id, list: NumSet::empty(id + 1) },
+            // ACKNACK: dst names the local WRITER, wr the sending reader
+            _ => Sub::AckNack { reader: self.reader_eid(wr), writer: self.writer_eid(dst), set: NumSet::empty(1), count: id as i32, final_flag: true },
+        };
+        (wire::encode_sub(&sub, true), eff_pay)
+    }
+}
+
+fn run_msg(x: &mut Exec, m: &MsgSpec, gov: &str, ev: &mut Vec<Value>) -> bool {
+    let own = x.rig.own_prefix;
+    let src_prefix = if m.src == "peer" { own } else { FOREIGN };
+    let header = wire::encode_header(&src_prefix);
+
+    // ---- wraps
+    struct Wrap {
+        id: i64,
+        parts: Option<Vec<Vec<u8>>>,
+        plain: Vec<u8>,
+        log: Value,
+    }
+    let mut wraps: Vec<Wrap> = vec![];
+    for w in &m.wraps {
+        let id = x.next_id;
+        x.next_id += 1;
+        let (plain, eff_pay) = x.build_ent(id, &w.kind, &w.dst, &w.wr, &w.pay);
+        let mut dg = wire::encode_header(&own);
+        dg.extend_from_slice(&plain);
+        let parts = ep_index(&w.key).and_then(|ki| x.rig.wrap_submessage(&dg, ki, w.kind == "ACK").ok());
+        // 0x30 = SEC_BODY: the submessage is hidden; otherwise (SIGN kinds) it is readable on the wire
+        let opaque = parts.as_ref().map(|p| p[1].first() == Some(&0x30)).unwrap_or(true);
+        let log = json!({"id": id, "kind": w.kind, "dst": w.dst, "wr": w.wr, "pay": eff_pay, "opaque": opaque, "key": if parts.is_some() { w.key.clone() } else { "none".to_string() }});
+        wraps.push(Wrap { id, parts, plain, log });
+    }
+
+    // ---- elements
+    let mut body: Vec<u8> = vec![];
+    let mut els_log: Vec<Value> = vec![];
+    // ids observable as sequence numbers (DATA, DATAFRAG, GAP) / as heartbeat counts
+    let mut ids: Vec<i64> = vec![];
+    let mut hb_ids: Vec<i64> = vec![];
+    let is_sn = |k: &str| k == "DATA" || k == "FRAG" || k == "GAP";
+    for (w, ws) in wraps.iter().zip(m.wraps.iter()) {
+        if ws.kind == "HB" {
+            hb_ids.push(w.id);
+        } else if is_sn(&ws.kind) {
+            ids.push(w.id);
+        }
+    }
+    let blank = |t: &str| json!({"t": t, "id": 0, "kind": "na", "dst": "na", "wr": "na", "pay": "na", "w": 0, "who": "na"});
+    for e in &m.els {
+        match e.t.as_str() {
+            "ent" => {
+                let id = x.next_id;
+                x.next_id += 1;
+                let (b, eff_pay) = x.build_ent(id, &e.kind, &e.dst, &e.wr, &e.pay);
+                body.extend_from_slice(&b);
+                if e.kind == "HB" {
+                    hb_ids.push(id);
+                } else if is_sn(&e.kind) {
+                    ids.push(id);
+                }
+                els_log.push(json!({"t": "ent", "id": id, "kind": e.kind, "dst": e.dst, "wr": e.wr, "pay": eff_pay, "w": 0, "who": "na"}));
+            }
+            "P" | "B" | "F" => {
+                let pi = match e.t.as_str() {
+                    "P" => 0,
+                    "B" => 1,
+                    _ => 2,
+                };
+                if e.w >= 1 && e.w <= wraps.len() {
+                    let w = &wraps[e.w - 1];
+                    match &w.parts {
+                        Some(p) => {
+                            body.extend_from_slice(&p[pi]);
+                            let mut l = blank(&e.t);
+                            l["w"] = json!(e.w);
+                            els_log.push(l);
+                        }
+                        None => {
+                            // the plugin declined to protect (topic not submessage protected): the body is
+                            // the plain submessage, prefix and postfix do not exist
+                            if pi == 1 {
+                                body.extend_from_slice(&w.plain);
+                                let mut l = w.log.clone();
+                                l["t"] = json!("ent");
+                                l["w"] = json!(0);
+                                l["who"] = json!("na");
+                                l.as_object_mut().unwrap().remove("key");
+                                l.as_object_mut().unwrap().remove("opaque");
+                                els_log.push(l);
+                            }
+                        }
+                    }
+                }
+            }
+            "idst" => {
+                let p = match e.who.as_str() {
+                    "self" => own,
+                    "other" => OTHER,
+                    _ => [0u8; 12],
+                };
+                body.extend_from_slice(&wire::encode_sub(&Sub::InfoDst { prefix: p }, true));
+                let mut l = blank("idst");
+                l["who"] = json!(e.who);
+                els_log.push(l);
+            }
+            "isrc" => {
+                let p = if e.who == "peer" { own } else { FOREIGN };
+                body.extend_from_slice(&wire::encode_sub(&Sub::InfoSrc { version: [2, 4], vendor: [1, 0x12], prefix: p }, true));
+                let mut l = blank("isrc");
+                l["who"] = json!(e.who);
+                els_log.push(l);
+            }
+            _ => {
+                body.extend_from_slice(&wire::encode_sub(&Sub::InfoTs { ts: Some((1000, 0)) }, true));
+                els_log.push(blank("its"));
+            }
+        }
+    }
+    let mut plain_dg = header.clone();
+    plain_dg.extend_from_slice(&body);
+
+    // ---- message level protection
+    let mut first = "plain".to_string();
+    let mut datagram = plain_dg.clone();
+    if m.first != "plain" && m.src == "peer" {
+        if let Ok(enc) = x.rig.wrap_message(&plain_dg) {
+            if enc.len() > 20 && enc[20] == 0x33 {
+                match m.first.as_str() {
+                    "srtps" => {
+                        first = "srtps".into();
+                        datagram = enc;
+                    }
+                    "srtps_bad" => {
+                        first = "srtps_bad".into();
+                        datagram = enc;
+                        let n = datagram.len();
+                        datagram[n - 6] ^= 0x40; // inside the common MAC of the SRTPS postfix
+                    }
+                    _ => {
+                        // the protected message does not START with the SRTPS prefix (7.3.6.6.3: invalid)
+                        first = "shift".into();
+                        let mut d = header.clone();
+                        d.extend_from_slice(&wire::encode_sub(&Sub::InfoTs { ts: Some((1000, 0)) }, true));
+                        d.extend_from_slice(&enc[20..]);
+                        datagram = d;
+                        let mut l = vec![blank("its"), blank("X")];
+                        if gov == "S" {
+                            l.extend(els_log.iter().cloned());
+                        } else {
+                            l.push(blank("X"));
+                        }
+                        l.push(blank("X"));
+                        els_log = l;
+                    }
+                }
+            }
+        }
+    }
+
+    // ---- the real code
+    let before_hb: Vec<Vec<i32>> = (0..DESTS.len()).map(|i| x.rig.hb_counts(i)).collect();
+    let rig = &mut x.rig;
+    let res = std::panic::catch_unwind(std::panic::AssertUnwindSafe(|| rig.inject(&datagram)));
+    let panic = res.err().map(|e| {
+        e.downcast_ref::<String>().cloned().or_else(|| e.downcast_ref::<&str>().map(|s| s.to_string())).unwrap_or_else(|| "panic".into())
+    });
+    let mut delivered: Vec<Value> = vec![];
+    if panic.is_none() {
+        for (i, d) in DESTS.iter().enumerate() {
+            for sn in x.rig.delivered_sns(i, &ids) {
+                delivered.push(json!([sn, d]));
+            }
+            let after = x.rig.hb_counts(i);
+            for (k, c) in after.iter().enumerate() {
+                let b = before_hb[i].get(k).copied().unwrap_or(0);
+                if *c != b && hb_ids.contains(&(*c as i64)) {
+                    delivered.push(json!([*c as i64, d]));
+                }
+            }
+        }
+        for (_p, weid, count) in x.rig.drain_acknack_channel() {
+            let name = x.rig.eps.iter().find(|e| e.writer == weid).map(|e| e.name).unwrap_or("unknown-writer");
+            delivered.push(json!([count as i64, name]));
+        }
+    }
+    ev.push(json!({
+        "ev": "Msg", "first": first, "src": m.src,
+        "wraps": wraps.iter().map(|w| w.log.clone()).collect::<Vec<_>>(),
+        "els": els_log, "delivered": delivered, "panic": panic.clone().unwrap_or_default(), "bytes": datagram.len(),
+    }));
+    panic.is_none()
+}
+
+pub fn run_one(run: usize, spec: &RunSpec, ev: &mut Vec<Value>) -> Vec<Vec<u8>> {
+    let gov_file = format!("governance_rtps{}.p7s", spec.gov);
+    let rig = match GateRig::new(&fixtures_dir(), &gov_file) {
+        Ok(r) => r,
+        Err(e) => {
+            eprintln!("gate rig construction failed: {e}");
+            std::process::exit(2);
+        }
+    };
+    let facts: Vec<Value> = rig
+        .eps
+        .iter()
+        .zip(rig.facts.iter())
+        .map(|(e, f)| json!({"name": e.name, "rsub": f.reader_sub_protected, "rpay": f.reader_payload_protected, "wsub": f.writer_sub_protected, "errs": f.setup_errors}))
+        .collect();
+    ev.push(json!({"ev": "Reset", "run": run, "gov": spec.gov, "rtps": spec.gov != "N", "dbg": {"rtps_protected": rig.rtps_protected, "facts": facts, "setup_errors": rig.setup_errors}}));
+    let mut x = Exec { rig, next_id: 1 };
+    for m in &spec.msgs {
+        if !run_msg(&mut x, m, &spec.gov, ev) {
+            break; // the code under test panicked: the run ends here (the panic is in the trace)
+        }
+    }
+    vec![]
+}
+
+/// TLC dumps one message per line (with its governance); group them into runs.
+fn group(flat: Vec<MsgSpec>, per_run: usize) -> Vec<RunSpec> {
+    let mut by: Vec<(String, Vec<MsgSpec>)> = vec![];
+    for mut m in flat {
+        let g = m.gov.take().unwrap_or_else(|| "E".into());
+        match by.iter_mut().find(|x| x.0 == g) {
+            Some(x) => x.1.push(m),
+            None => by.push((g, vec![m])),
+        }
+    }
+    let mut out = vec![];
+    for (g, ms) in by {
+        for c in ms.chunks(per_run) {
+            out.push(RunSpec { gov: g.clone(), msgs: c.to_vec() });
+        }
+    }
+    out
+}
+
+fn pick<'a>(rng: &mut StdRng, xs: &[&'a str]) -> &'a str {
+    xs[rng.gen_range(0..xs.len())]
+}
+
+fn random_ent(rng: &mut StdRng) -> (String, String, String, String) {
+    let kind = pick(rng, &["DATA", "DATA", "FRAG", "HB", "GAP", "ACK"]);
+    let wr = pick(rng, &DESTS);
+    let dst = match rng.gen_range(0..10) {
+        0..=5 => wr,
+        6..=7 => {
+            if kind == "ACK" {
+                wr
+            } else {
+                "UNKNOWN"
+            }
+        }
+        _ => pick(rng, &DESTS),
+    };
+    let pay = if kind == "DATA" || kind == "FRAG" { pick(rng, &["plain", "plain", "enc", "encx"]) } else { "na" };
+    (kind.into(), dst.into(), wr.into(), pay.into())
+}
+
+pub fn random_specs(seed: u64, runs: usize, events: usize) -> Vec<RunSpec> {
+    let mut out = vec![];
+    for r in 0..runs {
+        let mut rng = StdRng::seed_from_u64(seed.wrapping_mul(1_000_003).wrapping_add(r as u64));
+        let gov = pick(&mut rng, &["N", "S", "E", "E"]).to_string();
+        let mut msgs = vec![];
+        for _ in 0..events {
+            let nw = rng.gen_range(0..3);
+            let mut wraps = vec![];
+            for _ in 0..nw {
+                let (kind, dst, wr, pay) = random_ent(&mut rng);
+                let key = match rng.gen_range(0..10) {
+                    0..=5 if ["EN", "EE", "SN", "volatile"].contains(&wr.as_str()) => wr.clone(),
+                    _ => pick(&mut rng, &["EN", "EE", "SN", "volatile"]).to_string(),
+                };
+                wraps.push(WrapSpec { kind, dst, wr, pay, key });
+            }
+            let mut els: Vec<El> = vec![];
+            let blank = |t: &str| El { t: t.into(), kind: "na".into(), dst: "na".into(), wr: "na".into(), pay: "na".into(), w: 0, who: "na".into() };
+            let n = rng.gen_range(1..=6);
+            while els.len() < n {
+                match rng.gen_range(0..20) {
+                    0..=8 => {
+                        let (kind, dst, wr, pay) = random_ent(&mut rng);
+                        els.push(El { t: "ent".into(), kind, dst, wr, pay, w: 0, who: "na".into() });
+                    }
+                    9..=13 if nw > 0 => {
+                        // a correct triple
+                        let w = rng.gen_range(1..=nw);
+                        for t in ["P", "B", "F"] {
+                            let mut e = blank(t);
+                            e.w = w;
+                            els.push(e);
+                        }
+                    }
+                    14..=16 if nw > 0 => {
+                        // a single part, out of sequence
+                        let mut e = blank(pick(&mut rng, &["P", "B", "F"]));
+                        e.w = rng.gen_range(1..=nw);
+                        els.push(e);
+                    }
+                    17 => {
+                        let mut e = blank("idst");
+                        e.who = pick(&mut rng, &["self", "self", "other", "unknown"]).into();
+                        els.push(e);
+                    }
+                    18 => {
+                        let mut e = blank("isrc");
+                        e.who = pick(&mut rng, &["peer", "foreign"]).into();
+                        els.push(e);
+                    }
+                    _ => els.push(blank("its")),
+                }
+            }
+            let first = pick(&mut rng, &["plain", "plain", "plain", "srtps", "srtps", "srtps_bad", "shift"]).to_string();
+            let src = pick(&mut rng, &["peer", "peer", "peer", "foreign"]).to_string();
+            msgs.push(MsgSpec { gov: None, first, src, wraps, els });
+        }
+        out.push(RunSpec { gov, msgs });
+    }
+    out
+}
+
+pub fn main(mode: &str, opt: &HashMap<String, String>) -> i32 {
+    // the code under test logs rejected traffic with error!(); no logger is installed, nothing to do
+    match mode {
+        "random" => {
+            let specs = random_specs(util::get(opt, "seed", 1), util::get(opt, "runs", 100), util::get(opt, "events", 40));
+            util::run_parallel(opt, specs, run_one)
+        }
+        "replay" => {
+            let raw: Vec<Value> = util::read_jsonl(&opt["in"]);
+            let mut runs: Vec<RunSpec> = vec![];
+            let mut flat: Vec<MsgSpec> = vec![];
+            for v in raw {
+                if v.get("msgs").is_some() {
+                    runs.push(serde_json::from_value(v).expect("run spec"));
+                } else {
+                    flat.push(serde_json::from_value(v).expect("message spec"));
+                }
+            }
+            runs.extend(group(flat, util::get(opt, "per-run", 40)));
+            util::run_parallel(opt, runs, run_one)
+        }
+        _ => {
+            eprintln!("gate driver: unknown mode {mode}");
+            2
+        }
+    }
 }
